@@ -17,7 +17,8 @@ RULE = ('(a) every sequence of 1..k lines (k=3 quick, 4 thorough) over 25 line-c
         'forms {all terminated, last line un-terminated, no line terminated}; (b) random documents of 1..12 lines over '
         'a 22-symbol hostile alphabet (CR, VT, FF, U+0085, NBSP, NUL, DEL, non-ASCII, U+2028), as str and as UTF-8 bytes '
         'lines, from a list and from a one-shot iterator; (c) every deb822-shaped fixture of the repository, whole and '
-        'with lines shuffled/dropped/duplicated.  Non-trivial: >= 2 distinct line classes, or an un-terminated form, '
+        'with lines shuffled/dropped/duplicated.  Every result is dumped a SECOND time after read-only traffic over every field (get, in, '
+        'get_kvpair_element, both list interpretations opened and listed): it is still the unmodified result.  Non-trivial: >= 2 distinct line classes, or an un-terminated form, '
         'or an error/comment/whitespace-only line present.')
 ASSUMPTIONS = ['pre-condition of the statement respected: no newline inside a line; either all lines terminated except possibly '
                'the last, or (>= 2 lines) none terminated; a lone un-terminated line is the "last line without newline" form',
@@ -31,10 +32,12 @@ ANCHORS = ['debian._deb822_repro.tokens:tokenize_deb822_file',
            'debian._deb822_repro.parsing:Deb822Element.iter_tokens',
            'debian._deb822_repro.parsing:Deb822Element.convert_to_text']
 MUST_REACH = ANCHORS[:6]
-FLOORS = {'quick': {'nontrivial': 15000, 'monitors': {'M.tokens': 20000, 'M.dump': 20000, 'M.parts': 20000},
-                    'counters': {'after-aborted-parse:ioerror': 250, 'after-aborted-parse:bad-line': 250}},
-          'thorough': {'nontrivial': 400000, 'monitors': {'M.tokens': 500000, 'M.dump': 500000, 'M.parts': 500000},
-                       'counters': {'after-aborted-parse:ioerror': 25000, 'after-aborted-parse:bad-line': 25000}}}
+FLOORS = {'quick': {'nontrivial': 15000, 'monitors': {'M.tokens': 20000, 'M.dump': 20000, 'M.parts': 20000, 'M.redump': 20000},
+                    'counters': {'after-aborted-parse:ioerror': 250, 'after-aborted-parse:bad-line': 250,
+                                 'read-only-accesses-before-second-dump': 150000}},
+          'thorough': {'nontrivial': 400000, 'monitors': {'M.tokens': 500000, 'M.dump': 500000, 'M.parts': 500000, 'M.redump': 500000},
+                       'counters': {'after-aborted-parse:ioerror': 25000, 'after-aborted-parse:bad-line': 25000,
+                                    'read-only-accesses-before-second-dump': 4000000}}}
 LEVEL_TEXT = ('Runtime monitoring of tokenize_deb822_file / parse_deb822_file on the live tree: a bounded-exhaustive sweep of '
               'line-class adjacencies plus a large seeded random workload over a hostile alphabet and mutated fixtures; '
               'after every execution the harness compares all text-producing views of the result with the text it fed in. '
@@ -219,6 +222,11 @@ def _failing_source(lines, mode):
     yield 'Z: z\n'
 
 
+def _interp(which):
+    from debian._deb822_repro import LIST_SPACE_SEPARATED_INTERPRETATION as SP, LIST_COMMA_SEPARATED_INTERPRETATION as CM
+    return CM if which == 'comma' else SP
+
+
 def run_case(ctx, case):
     from debian._deb822_repro import parse_deb822_file
     from debian._deb822_repro.tokens import tokenize_deb822_file
@@ -288,3 +296,32 @@ def run_case(ctx, case):
             ctx.violation('paragraph-dump-not-in-document-order', 'lines=%r para=%r' % (lines, pd))
             break
         pos = at + len(pd)
+    # --- the result is still UNMODIFIED after any amount of reading: read through every read-only route, dump again
+    ctx.mon('M.redump')
+    reads = 0
+    for para in f:
+        try:
+            keys = list(para.keys())
+        except Exception:
+            continue
+        for k in keys:
+            for route in (lambda: para.get(k), lambda: k in para, lambda: para.get_kvpair_element(k, use_get=True),
+                          lambda: para.as_interpreted_dict_view(_interp('comma')).get(k),
+                          lambda: para.as_interpreted_dict_view(_interp('space')).get(k)):
+                try:
+                    v = route()
+                    if hasattr(v, '__enter__'):
+                        with v as l:
+                            list(l)
+                    elif hasattr(v, 'convert_to_text'):
+                        v.convert_to_text()
+                    reads += 1
+                except Exception:       # what a read of an odd field returns or raises is not this property's business
+                    pass
+    ctx.count('read-only-accesses-before-second-dump', reads)
+    d2 = f.dump()
+    if d2 != exp:
+        ctx.violation('dump-changed-after-read-only-access', 'lines=%r second dump=%r' % (lines, d2))
+    its2 = ''.join(t.text for t in f.iter_tokens())
+    if its2 != exp:
+        ctx.violation('dump-changed-after-read-only-access', 'lines=%r iter_tokens after reads=%r' % (lines, its2))
